@@ -160,6 +160,15 @@ CHECKS["C19"] = dict(
     technique="property-based testing (proptest) with a naive-scan reference model and a two-implementation differential",
 )
 
+CHECKS["C17"] = dict(
+    engine="token-sched",
+    category="exploration",
+    text="Main part: a deterministic token scheduler runs 2-4 real threads of which exactly one holds the token; at every guard-only yield point (each atomic pointer load, store and CAS of skipfree / listfree) the next element of a proptest-generated schedule decides who runs next, tower heights come from the case, and an exact log gives, for every observation, the inserts completed before it began and started before it ended. Oracles: iterations strictly increasing with completed-before ⊆ seen ⊆ started-before; contains; seek/next/prev land on the nearest admissible key; final forward/backward iteration equals the inserted set; iterators held while the last list handle is dropped stay valid (allocation registry); prepend list: each element once, newest first, consistent with the CAS order. A real-thread stress part (2-8 writers x up to 10^4 keys, 1-4 readers) covers hardware memory ordering on this x86-64 machine.",
+    design_ref="DESIGN.md §5 C17",
+    note="Token scheduling yields sequentially consistent executions at hook granularity only; orderings weaker than x86-TSO are out of reach. At most 4 threads x 6 inserts per scheduled case.",
+    technique="property-based testing over generated (workload, schedule) pairs with a deterministic cooperative scheduler, plus generated multi-threaded stress",
+)
+
 NOT_YET = {
 }
 
@@ -198,6 +207,7 @@ def main():
             {"name": "store-driver", "path": "harness/vstore/src/driver.rs", "serves_properties": sorted(k for k, v in CHECKS.items() if v["engine"] == "store-driver"), "kind_free_text": "single-threaded model-based step driver over KeyValueStore / LsmTree: generated op vectors interpreted against the real store (per-case directory on tmpfs) and an in-memory model; flush, compaction step, verifier pass and reopen are ops thanks to the step hooks"},
             {"name": "sysshim", "path": "harness/vstore/src/shim.rs", "serves_properties": ["C02", "C08", "C13"], "kind_free_text": "in-binary interposition of libc entry points (open/open64, write, pwrite64, fsync, fdatasync, ftruncate64, rename, link/linkat, unlink/unlinkat, mkdir, rmdir, close) forwarded through dlsym(RTLD_NEXT): counts and traces mutating calls under the store root, _exits before call k with optional loss of unsynced bytes, or fails call k with EIO/ENOSPC; driven by crash.rs / manicheck.rs with child processes"},
             {"name": "conc-store", "path": "harness/vstore/src/threads.rs", "serves_properties": ["C06", "C07", "C20"], "kind_free_text": "real OS threads against one store: generated client programs, flush and compaction threads, invocation/response stamping, generated perturbation at guard-only yield points, WGL linearizability checker (wgl.rs), exact all-parked stall detector from guard-only parked/notify/progress counters"},
+            {"name": "token-sched", "path": "harness/c17/src/sched.rs", "serves_properties": ["C17"], "kind_free_text": "deterministic scheduler for lock-free code: N OS threads, one token, hand-over at every guard-only yield point according to a generated, shrinkable schedule vector; exact happened-before log"},
             {"name": "conc", "path": "harness/c18/src/conc.rs", "serves_properties": ["C18"], "kind_free_text": "real OS threads running generated per-thread programs with generated delays / CPU pinning, invariant oracles, and an exact all-parked stall detector (per-thread /proc syscall state + context-switch counters)"},
             {"name": "pbt", "path": "harness/vcore", "serves_properties": sorted(CHECKS.keys()), "kind_free_text": "proptest TestRunner driven from per-property binaries; 16 worker processes, fixed case counts, seeds derived from VERIF_SEED; shrinking; JSON replay files; evidence written by the parent process"},
         ],
